@@ -73,6 +73,22 @@ func init() {
 			cfgs = big
 		}
 		defer func() { udpAnswerLen = 0 }()
+		// burst=1: several datagrams pending at once (with the session id's low bit forced either way, and
+		// for the admin UID used as an ordinary proxy user): one application, three queries per configuration
+		if c.P("burst", "0") == "1" {
+			udpBurst = true
+			fmt.Sscan(c.P("sidlow", "0"), &udpSIDLow)
+			udpAdmin = c.P("admin", "0") == "1"
+			defer func() { udpBurst, udpSIDLow, udpAdmin = false, 0, false }()
+			var one []cfg
+			for _, cf := range cfgs {
+				if cf.apps == 1 && (cf.method == "plain" || cf.method == "aes-256-gcm") {
+					cf.sizes = []int{100, 200, 300}
+					one = append(one, cf)
+				}
+			}
+			cfgs = one
+		}
 		for _, cf := range cfgs {
 			udpAnswerLen = 0
 			if c.P("anslens", "") != "" {
@@ -101,6 +117,16 @@ func init() {
 	}})
 }
 
+// udpBurst: every query of an application is sent back-to-back while the datagram service has not yet
+// accepted the server's connection, so that several datagrams are pending on the server's stream at once.
+// udpSIDLow: if 1 or 2, the session id's low bit is forced to 0 / 1. udpAdmin: the user is the server's AdminUID
+// (used as an ordinary proxy user, session id != 0).
+var (
+	udpBurst  bool
+	udpSIDLow int
+	udpAdmin  bool
+)
+
 // udpAnswerLen > 0: the datagram service pads its answers to this many bytes.
 var udpAnswerLen int
 
@@ -125,7 +151,11 @@ var udpSamePort bool
 
 func udpRouteRun(singleplex bool, method string, apps int, sizes []int, order string, emptyAnswers bool) (string, *e2eRig) {
 	uid := uidOf(0)
-	r := newE2ERig(nil, nil, nil)
+	var admin []byte
+	if udpAdmin {
+		admin = uid
+	}
+	r := newE2ERig(nil, nil, admin)
 	r.sta.Panel = MakeUserPanel(newMemManager())
 	r.sta.BypassUID[arr16(uid)] = struct{}{}
 	r.sta.WorldState = common.WorldState{Rand: vWorld().Rand, Now: rtime.Now}
@@ -136,8 +166,13 @@ func udpRouteRun(singleplex bool, method string, apps int, sizes []int, order st
 	total := apps * len(sizes)
 	heard := make(chan struct{}, 1024)
 	release := make(chan struct{})
+	allSent := make(chan struct{})
 	go func() {
 		for {
+			if udpBurst {
+				<-allSent                            // the service is slow to take the server's connection ...
+				rtime.Sleep(300 * rtime.Millisecond) // ... and the queries have had time to reach the server
+			}
 			pc, err := udpProxy.Accept()
 			if err != nil {
 				return
@@ -175,6 +210,15 @@ func udpRouteRun(singleplex bool, method string, apps int, sizes []int, order st
 		quad := make([]byte, 4)
 		common.RandRead(a.WorldState.Rand, quad)
 		a.SessionId = binary.BigEndian.Uint32(quad)
+		switch udpSIDLow {
+		case 1:
+			a.SessionId &^= 1
+		case 2:
+			a.SessionId |= 1
+		}
+		if a.SessionId == 0 {
+			a.SessionId = 2
+		}
 		return client.MakeSession(remote, a, r.dialer)
 	}
 	front, err := net.ListenUDP("udp", &net.UDPAddr{IP: net.IPv4(127, 0, 0, 1)})
@@ -230,11 +274,24 @@ func udpRouteRun(singleplex bool, method string, apps int, sizes []int, order st
 		if _, err := socks[s.app].Write(query(s.app, s.k)); err != nil {
 			return "send: " + err.Error(), r
 		}
+		if udpBurst {
+			continue
+		}
 		// one at a time, so that the order at RouteUDP is the planned one
 		select {
 		case <-heard:
 		case <-rtime.After(30 * rtime.Second):
 			return fmt.Sprintf("query %d of application %d never reached the datagram proxy", s.k, s.app), r
+		}
+	}
+	close(allSent)
+	if udpBurst {
+		for range plan {
+			select {
+			case <-heard:
+			case <-rtime.After(30 * rtime.Second):
+				return fmt.Sprintf("of a burst of %d queries only some reached the datagram proxy as datagrams of their own", len(plan)), r
+			}
 		}
 	}
 	close(release)
